@@ -6,6 +6,7 @@ import Secp.Gen.FieldIR
 import Secp.Gen.ScalarIR
 import Secp.Gen.Formulas
 import Secp.Model.ScalarMult
+import Secp.Model.Ecdsa
 /-
   Driver — line protocol.  One operation per input line (`op arg…`, byte strings
   in hex, "-" for the empty string, numbers in decimal); one answer per line:
@@ -265,6 +266,104 @@ def opPubKey (args : List String) : String :=
     | none => "bad-args"
   | _ => "bad-args"
 
+def rsvStr (t : Nat × Nat × Nat) : String := natHex32 t.1 ++ " " ++ natHex32 t.2.1 ++ " " ++ toString t.2.2
+
+/-- sign <d> <hash>: r s v der compact(T) compact(F) signerDER signerCompact -/
+def opSign (args : List String) : String :=
+  match args with
+  | [ds, hs] =>
+    match scalarArg ds, ofHex hs with
+    | some d, some h =>
+      match signRFC6979M d h with
+      | none => "none\t="
+      | some (r, s, v) =>
+        let der := serializeDER r s
+        let c1 := exportCompactM r s v true 31
+        let c0 := exportCompactM r s v true 27
+        let sc := exportCompactM r s v true 0
+        let m := rsvStr (r, s, v) ++ " " ++ toHex der ++ " " ++ toHex c1 ++ " " ++ toHex c0 ++ " " ++ toHex der ++ " " ++ toHex sc
+        -- spec: textbook ECDSA with RFC 6979 nonce, low-s, verified by the textbook verifier
+        let spec := match ecdsaSign d h with
+          | some (r', s', v') =>
+            if ecdsaVerify h (smul d G) r' s' then rsvStr (r', s', v') else "SPEC-UNVERIFIABLE"
+          | none => "none"
+        m ++ "\t" ++ (if spec == rsvStr (r, s, v) then m else "SPEC-MISMATCH " ++ spec)
+    | _, _ => "bad-args"
+  | _ => "bad-args"
+
+def opSignNonce (args : List String) : String :=
+  match args with
+  | [ds, ks, hs] =>
+    match scalarArg ds, scalarArg ks, ofHex hs with
+    | some d, some k, some h =>
+      let m := match signM d k h with | some t => rsvStr t | none => "none"
+      let sp := match ecdsaSignWithNonce d k h with | some t => rsvStr t | none => "none"
+      m ++ "\t" ++ sp
+    | _, _, _ => "bad-args"
+  | _ => "bad-args"
+
+def opVerify (args : List String) : String :=
+  match args with
+  | [hs, xs, ys, rs, ss] =>
+    match ofHex hs, hexNat xs, hexNat ys, scalarArg rs, scalarArg ss with
+    | some h, some x, some y, some r, some s =>
+      toString (verifyM h (x % P, y % P) r s) ++ "\t" ++ toString (ecdsaVerify h (some (x % P, y % P)) r s)
+    | _, _, _, _, _ => "bad-args"
+  | _ => "bad-args"
+
+def recErrName : RecErr → String
+  | .ErrSigOverflowsPrime => "err ErrSigOverflowsPrime" | .ErrPointNotOnCurve => "err ErrPointNotOnCurve" | .Panic => "PANIC"
+
+def opRecover (args : List String) : String :=
+  match args with
+  | [hs, rs, ss, vs] =>
+    match ofHex hs, scalarArg rs, scalarArg ss, vs.toNat? with
+    | some h, some r, some s, some v =>
+      let m := match recoverM h r s v with
+        | .ok p => "ok " ++ showXY p
+        | .error e => recErrName e
+      let sp := if r = 0 ∨ s = 0 then "=" else match ecdsaRecover h r s v with
+        | some p => "ok " ++ showXY p
+        | none => "reject"
+      m ++ "\t" ++ sp
+    | _, _, _, _ => "bad-args"
+  | _ => "bad-args"
+
+def opExport (args : List String) : String :=
+  match args with
+  | [rs, ss, vs] =>
+    match scalarArg rs, scalarArg ss, vs.toNat? with
+    | some r, some s, some v => rsvStr (let (a, b, c) := exportM r s v; (a, b, c % 256)) ++ "\t="
+    | _, _, _ => "bad-args"
+  | _ => "bad-args"
+
+def opExportCompact (args : List String) : String :=
+  match args with
+  | [rs, ss, vs, first, off] =>
+    match scalarArg rs, scalarArg ss, vs.toNat?, off.toNat? with
+    | some r, some s, some v, some o => toHex (exportCompactM r s v (first == "1") o) ++ "\t="
+    | _, _, _, _ => "bad-args"
+  | _ => "bad-args"
+
+def opParseCompact (args : List String) : String :=
+  match args.mapM ofHex with
+  | some [b] =>
+    (match parseCompactM b with
+     | .ok (r, s, c, comp) => "ok " ++ rsvStr (r, s, c) ++ " " ++ toString comp
+     | .error (e, comp) => "err " ++ e.name ++ " " ++ toString comp) ++ "\t="
+  | _ => "bad-args"
+
+def opRecoverCompact (args : List String) : String :=
+  match args.mapM ofHex with
+  | some [b, h] =>
+    (match parseCompactM b with
+     | .error (e, _) => "err " ++ e.name
+     | .ok (r, s, c, comp) =>
+       match recoverM h r s c with
+       | .ok p => "ok " ++ showXY p ++ " " ++ toString comp
+       | .error e => recErrName e) ++ "\t="
+  | _ => "bad-args"
+
 def runOp (line : String) : String :=
   match (line.splitOn " ").filter (· ≠ "") with
   | [] => "empty"
@@ -274,6 +373,14 @@ def runOp (line : String) : String :=
     | "der_serialize" => opDerSerialize args
     | "kern" => opKern args
     | "keygen" => opKeygen args
+    | "sign" => opSign args
+    | "sign_nonce" => opSignNonce args
+    | "verify" => opVerify args
+    | "recover" => opRecover args
+    | "export" => opExport args
+    | "export_compact" => opExportCompact args
+    | "parse_compact" => opParseCompact args
+    | "recover_compact" => opRecoverCompact args
     | "smul" => opSmul args
     | "sbmul" => opSbmul args
     | "naf" => opNaf args
